@@ -209,3 +209,29 @@ func verifHarness_C01_tcp_three_faults() {
 	verifC01Faults = 2
 	verifAssert(false, "witness")
 }
+
+// two connections of one poller, each written to with Writev by its own
+// goroutine at the same time: each peer receives its own connection's bytes.
+func verifHarness_C01_two_connections_concurrent_writev() {
+	verifBound("connections", 2)
+	verifBound("preemptions", 2)
+	w := verifUnitEngine(Config{})
+	c1, f1 := w.verifAddStream(ConnTypeTCP)
+	c2, f2 := w.verifAddStream(ConnTypeTCP)
+	vk.faults = 0
+	a, b := verifBytes("a", 3), verifBytes("b", 3)
+	var n1, n2 int
+	var e1, e2 error
+	verifSched(true, 2)
+	verifGo(func() { n1, e1 = c1.Writev([][]byte{a[:1], a[1:]}) })
+	verifGo(func() { n2, e2 = c2.Writev([][]byte{b[:2], b[2:]}) })
+	verifJoin()
+	verifAssertD(e1 == nil && n1 == 3 && e2 == nil && n2 == 3, "error-free-call-accepts-whole-input", "two-connections")
+	for i := 0; i < 2; i++ {
+		_ = c1.flush()
+		_ = c2.flush()
+	}
+	verifAssertD(len(f1.wire) == 3 && verifEqBytes(f1.wire, a), "wire-equals-accepted-stream", "two-connections/first")
+	verifAssertD(len(f2.wire) == 3 && verifEqBytes(f2.wire, b), "wire-equals-accepted-stream", "two-connections/second")
+	verifAssert(false, "witness")
+}
